@@ -68,9 +68,17 @@ func partialCerts() {
 
 var asAttacks3 = []string{"expired_enc", "notyet_enc", "wrongname_enc", "expired_sig", "notyet_sig", "wrongname_sig"}
 
+// round 12: genuine certificates, the attacker holds the ENCRYPTION private key only: it decrypts the pre-master
+// secret, but signs the ServerKeyExchange (right randoms, right encryption certificate) with the encryption key.
+var asAttacks4 = []string{"skx_enckey"}
+
 // serverAttack3: the other certificate is the genuine one with its genuine key, the victim's clock and name are normal.
 func serverAttack3(name string) (srvAtk, bool) {
 	d, _ := serverAttack("honest")
+	if name == "skx_enckey" {
+		d.signer = sm2Key(&E.enc)
+		return d, true
+	}
 	for _, a := range asAttacks3 {
 		if a == name {
 			partialCerts()
